@@ -336,3 +336,101 @@ Print Assumptions C15_move_instruction_graph.
 Print Assumptions C15_move_duplicate_label_refuted.
 Print Assumptions C15_move_subroutine_partial.
 Print Assumptions C15_move_subroutine_example.
+
+(* ------------------------------------------------------------------------------------------------------------
+   Extension (weak isomorphism: predecessor lists as SETS; Lemmas/IsoWeak.v, Lemmas/IsoWeakEx.v).  The in-order
+   check rejects a movable pair in which one block has jump predecessors in both moved bodies (m3_rejected).  The
+   weak relation fiso_w asks for the predecessor lists only as sets (successors, block order, subroutine order still
+   in order).  The path search does not read predecessor lists; the solver's result is a least fixpoint, so it is
+   the same up to the domain's equality. *)
+From Coq Require Import String List NArith ZArith Bool Arith.
+From Tealer Require Import SolverLemmas GraphWf PaddingLemmas IsoWeak IsoWeakEx.
+
+(* the boolean check is sound; the in-order relation is the special case *)
+Theorem C15_weak_iso_check_sound :
+  forall (r g : nat -> nat) (f f' : func),
+  (forall x y, r x = r y -> x = y) -> (forall x y, g x = g y -> x = y) ->
+  iso_w_check r g f f' = true -> fiso_w r g f f'.
+Proof. exact iso_w_check_sound. Qed.
+
+Theorem C15_iso_is_weak_iso :
+  forall (r g : nat -> nat) (f f' : func),
+  NoDup (map b_idx (fn_blocks f')) -> fiso r g f f' -> fiso_w r g f f'.
+Proof. exact fiso_fiso_w. Qed.
+
+(* block-level constraints: the same lists up to the renaming (every domain, no lattice law) *)
+Theorem C15_weak_iso_init_constraints :
+  forall (r g : nat -> nat) (f f' : func) (T : Type) (univ null : T) (union inter : T -> T -> T)
+         (single : instr -> nat -> list sval -> T * T),
+  fiso_w r g f f' ->
+  (forall op pos args, single op (g pos) (map (shift_sval g) args) = single op pos args) ->
+  init_constraints T univ null union inter single f' =
+  option_map (ren_st r) (init_constraints T univ null union inter single f).
+Proof. exact wiso_init_constraints. Qed.
+
+(* one analysis key, any domain with a closed representation invariant P and an order whose laws hold on P (union is
+   the least upper bound, inter monotone, null least, t_eqb = order equivalence): if the solver terminates on f and
+   on f', the result on f' has the keys of the renamed result on f and t_eqb-equal values (the same sets).
+   graph_wf f' is the model's decidable graph check (GraphWf). *)
+Theorem C15_weak_iso_solve :
+  forall (T : Type) (t_eqb : T -> T -> bool) (univ null : T) (union inter : T -> T -> T)
+         (single : instr -> nat -> list sval -> T * T) (P : T -> Prop) (leq : T -> T -> Prop),
+  P univ -> P null ->
+  (forall a b : T, P a -> P b -> P (union a b)) ->
+  (forall a b : T, P a -> P b -> P (inter a b)) ->
+  (forall op pos args, P (fst (single op pos args)) /\ P (snd (single op pos args))) ->
+  (forall a : T, t_eqb a a = true) ->
+  (forall a : T, leq a a) ->
+  (forall a b c : T, leq a b -> leq b c -> leq a c) ->
+  (forall a b : T, P a -> P b -> t_eqb a b = true <-> leq a b /\ leq b a) ->
+  (forall a b : T, P a -> P b -> leq a (union a b)) ->
+  (forall a b : T, P a -> P b -> leq b (union a b)) ->
+  (forall a b c : T, P a -> P b -> P c -> leq a c -> leq b c -> leq (union a b) c) ->
+  (forall a a' b b' : T, P a -> P a' -> P b -> P b' -> leq a a' -> leq b b' -> leq (inter a b) (inter a' b')) ->
+  (forall a : T, P a -> leq null a) ->
+  forall r g : nat -> nat,
+  (forall op pos args, single op (g pos) (map (shift_sval g) args) = single op pos args) ->
+  forall f f' : func,
+  fiso_w r g f f' ->
+  forall (bc bc' : Analysis.state T) (fu fu' : nat) (lo lo' : list (nat * T)),
+  graph_wf f' = true ->
+  okst T P bc -> okst T P bc' ->
+  peq T t_eqb (ren_st r bc) bc' ->
+  solve T t_eqb univ null union inter single f fu bc = Done lo ->
+  solve T t_eqb univ null union inter single f' fu' bc' = Done lo' ->
+  peq T t_eqb (ren_st r lo) lo' /\ okst T P lo'.
+Proof. exact wiso_solve. Qed.
+
+(* detectors: exactly the renamed paths in the same order, every fuel, exceptions included, as soon as the
+   validation verdicts of the two results agree *)
+Theorem C15_weak_iso_detector :
+  forall (r g : nat -> nat) (f f' : func) (res res' : fn_result) (fuel : nat) (name : string) (checks : bctx -> bool),
+  fiso_w r g f f' ->
+  (forall n, validated_in_block res' checks None n = validated_in_block (ren_result r res) checks None n) ->
+  run_detector f' res' fuel name checks = omap (ren_paths r) (run_detector f res fuel name checks).
+Proof. exact wiso_run_detector. Qed.
+
+(* the pair rejected by the in-order check is accepted by the weak one; all nine detectors agree on it *)
+Theorem C15_weak_iso_example :
+  m3_f = whole_function m3_t /\ m3_f' = whole_function m3_t' /\
+  iso_check_graph m3_r m3_g m3_f m3_f' = false /\
+  iso_w_check m3_r m3_g m3_f m3_f' = true /\ graph_wf m3_f' = true.
+Proof. exact m3w_accepted. Qed.
+
+Theorem C15_weak_iso_example_verdicts :
+  run_all m3_f 200 = Done m3_res /\ run_all m3_f' 200 = Done m3_res' /\
+  map (fun nc => run_detector m3_f' m3_res' 200 (fst nc) (snd nc)) detectors =
+  map (fun nc => omap (ren_paths m3_r) (run_detector m3_f m3_res 200 (fst nc) (snd nc))) detectors /\
+  run_detector m3_f m3_res 200 "missing-fee-check" checks_missing_fee_check =
+    Done ((0 :: 1 :: 2 :: 4 :: nil) :: (0 :: 3 :: 4 :: nil) :: nil) /\
+  run_detector m3_f' m3_res' 200 "missing-fee-check" checks_missing_fee_check =
+    Done ((0 :: 1 :: 3 :: 4 :: nil) :: (0 :: 2 :: 4 :: nil) :: nil).
+Proof. exact m3w_verdicts. Qed.
+
+Print Assumptions C15_weak_iso_check_sound.
+Print Assumptions C15_iso_is_weak_iso.
+Print Assumptions C15_weak_iso_init_constraints.
+Print Assumptions C15_weak_iso_solve.
+Print Assumptions C15_weak_iso_detector.
+Print Assumptions C15_weak_iso_example.
+Print Assumptions C15_weak_iso_example_verdicts.
